@@ -237,6 +237,7 @@ def run(chk: core.Check):
 
     def run_stack(label, mk, stack):
         lib = mk()
+        lib0, ids0, proj0 = lib, mutable_ids(lib, bib), (proj(lib, bib) if len(stack) > 1 else None)
         for pos, (name, factory) in enumerate(stack):
             eid = len(events)
             ev, out, extra = apply_event(bib, lib, name, factory, eid)
@@ -246,9 +247,27 @@ def run(chk: core.Check):
             if out is None:
                 break
             lib = out
+        else:
+            if len(stack) > 1:
+                # the stack as a whole (Middleware!InvNoAlias / InvInputFrozen): nothing reachable from the library handed to
+                # the FIRST middleware is reachable from the result of the LAST, and that library is as it was
+                ids_out = mutable_ids(lib, bib)
+                sh = {}
+                for i in set(ids0) & set(ids_out):
+                    sh[ids0[i]] = sh.get(ids0[i], 0) + 1
+                eid = len(events)
+                events.append({"id": eid, "mw": "stack", "inplace": False, "types": types_of(lib0, bib), "raised": False,
+                               "changed": proj(lib0, bib) != proj0, "shared": sum(sh.values()), "same_text_twice": True,
+                               "fmt_unchanged": True, "bad_template": False})
+                info[eid] = {"library": label, "stack": [s[0] for s in stack] + ["(whole stack)"], "name": "stack", "exc": "", "shared": sh}
     for label, mk in libs:
         for t in table:
             run_stack(label, mk, [t])
+    # stacks that must always run: every pair of name middlewares (inverse pairs re-create earlier spellings/objects)
+    names_mw = [t for t in table if t[0].split("(")[0] in ("SeparateCoAuthors", "SplitNameParts", "MergeNameParts", "MergeCoAuthors")]
+    for label, mk in libs:
+        for a, b in itertools.product(names_mw, names_mw):
+            run_stack(label, mk, [a, b])
     pairs = list(itertools.product(table, table))
     for li, (label, mk) in enumerate(libs):
         sel = pairs if (li in (1, 3) and chk.tier == "thorough") else rnd.sample(pairs, min(n2, len(pairs)))
@@ -259,8 +278,15 @@ def run(chk: core.Check):
         run_stack(label, mk, [rnd.choice(table) for _ in range(3)])
     # write_string: the library and the format are left as they were; writing twice gives the same text
     for label, mk in libs:
-        for vc, template in ((0, None), ("auto", None), (12, None), ("auto", "% {oops} {n}"), (3, "% {0}")):
+        for vc, template, prepend in ((0, None, None), ("auto", None, None), (12, None, None), ("auto", "% {oops} {n}", None),
+                                      (3, "% {0}", None), (0, None, "empty"), ("auto", None, "copy-mode")):
             lib = mk()
+            kw = {}
+            if prepend == "empty":
+                kw = {"prepend_middleware": []}
+            elif prepend == "copy-mode":
+                kw = {"prepend_middleware": [bib.middlewares.SortFieldsAlphabeticallyMiddleware(allow_inplace_modification=False),
+                                            bib.middlewares.NormalizeFieldKeys(allow_inplace_modification=False)]}
             fmt = bib.BibtexFormat()
             fmt.value_column = vc
             if template:
@@ -269,8 +295,8 @@ def run(chk: core.Check):
             before, ids_in, ty = proj(lib, bib), mutable_ids(lib, bib), types_of(lib, bib)
             raised, exc, same = False, "", True
             try:
-                t1 = bib.write_string(lib, bibtex_format=fmt)
-                t2 = bib.write_string(lib, bibtex_format=fmt)
+                t1 = bib.write_string(lib, bibtex_format=fmt, **kw)
+                t2 = bib.write_string(lib, bibtex_format=fmt, **kw)
                 same = t1 == t2
             except Exception as ex:  # noqa
                 raised, exc = True, f"{type(ex).__name__}: {str(ex)[:120]}"
@@ -278,7 +304,7 @@ def run(chk: core.Check):
             events.append({"id": eid, "mw": "write_string", "inplace": False, "types": ty, "raised": raised,
                            "changed": proj(lib, bib) != before or set(mutable_ids(lib, bib)) != set(ids_in), "shared": 0, "same_text_twice": same, "bad_template": template is not None,
                            "fmt_unchanged": fstate == (fmt.indent, fmt.value_column, fmt.block_separator, fmt.trailing_comma, fmt.parsing_failed_comment)})
-            info[eid] = {"library": label, "stack": [f"write_string(value_column={vc}, parsing_failed_comment={template!r})"], "name": "write_string", "exc": exc, "shared": {}}
+            info[eid] = {"library": label, "stack": [f"write_string(value_column={vc}, parsing_failed_comment={template!r}, prepend_middleware={prepend})"], "name": "write_string", "exc": exc, "shared": {}}
     verdict = core.validate_traces("Trace_Middleware", events, shards=8)
     for r in verdict.results:
         chk.add_tlc(r, "Trace_Middleware shard", count_states=False)
